@@ -170,6 +170,7 @@ POSITIONAL = {
     "avr": (b"\x00\x00", 2, 4, None),
     "mips": (b"\x00\x00\x00\x00", 1, 4, None),
 }
+_AVR_RELBR = re.compile(r"^(rjmp|rcall|br[a-z]{2})\b")  # shown with the offset field as a fixup: bytes unreliable
 _WARN = re.compile(r"^<stdin>:(\d+):(\d+): warning: invalid instruction encoding", re.M)
 
 
@@ -237,7 +238,7 @@ def _run_positional(target, blobs):
         k += 1
         if not enc:
             raise _Inconsistent("empty encoding")
-        if "<unknown>" not in text:
+        if "<unknown>" not in text and not (target == "avr" and _AVR_RELBR.match(text)):
             n = len(enc) if ncmp is None else min(ncmp, len(enc))
             if stream[pos : pos + n] != enc[:n]:
                 raise _Inconsistent("shown bytes differ")
@@ -266,7 +267,13 @@ def _msp430_crasher(blob):
     return w & 0xFFA0 == 0x1220 and (w & 15) not in (0, 2, 3)
 
 
-KNOWN_CRASHERS = {"msp430": _msp430_crasher}
+def _avr_crasher(blob):
+    """LDD/STD (10q0 qq.d dddd .qqq): llvm-mc 14 dies on q != 0 and prints garbage ('st 2, r0')
+    for q == 0.  These words are decoded by avr_ldst_decode instead."""
+    return len(blob) >= 2 and (blob[1] & 0xD0) == 0x80
+
+
+KNOWN_CRASHERS = {"msp430": _msp430_crasher, "avr": _avr_crasher}
 
 
 def _decode_positional(target, data):
@@ -399,16 +406,39 @@ def _x86_reltarget(text, next_addr):
     return "%s rel%+d" % (m.group(1), rel)
 
 
-def reference_decode(target, blobs, tmpdir=None):
+def reference_decode(target, blobs, tmpdir=None, sources=None):
     """Decode with the reference disassembler of the target: objdump for x86-64, llvm-mc else.
-    Returns None when the target has no reference decoder here."""
+    Returns None when the target has no reference decoder here.  `sources` (a list) receives, per
+    input, "own" when the result comes from one of the hand-written fallback decoders
+    (avr_ldst_decode, vf/m68kdec.py) and "ref" otherwise."""
+    res = _reference_decode(target, blobs, tmpdir, sources)
+    if sources is not None and res is not None and len(sources) < len(res):
+        sources.extend(["ref"] * (len(res) - len(sources)))
+    return res
+
+
+def _reference_decode(target, blobs, tmpdir, sources):
     if target == "x86_64":
         return decode_x86(blobs, tmpdir)
     if target == "avr":
+        # LD/LDD/ST/STD: llvm-mc 14 has no (X, Y+, -Y, Z+, -Z) or a broken (Y+q, Z+q) decoder
+        res = [avr_ldst_decode(bytes(b)) for b in blobs]
+        rest = [i for i, r in enumerate(res) if r is None]
+        if sources is not None:
+            sources.extend("ref" if r is None else "own" for r in res)
+        for i, r in zip(rest, decode(target, [blobs[i] for i in rest])):
+            res[i] = r
+        return res
+    if target == "m68k":
+        # llvm-mc 14 first; what it rejects goes to the own decoder (vf/m68kdec.py)
+        from . import m68kdec
+
         res = decode(target, blobs)
-        for i, (b, r) in enumerate(zip(blobs, res)):
+        if sources is not None:
+            sources.extend("own" if r is None else "ref" for r in res)
+        for i, r in enumerate(res):
             if r is None:
-                res[i] = avr_ldst_decode(bytes(b))  # LD/LDD/ST/STD: no decoder table in llvm-mc 14
+                res[i] = m68kdec.decode(bytes(blobs[i]))
         return res
     if target in LLVM_TARGETS:
         return decode(target, blobs)
